@@ -68,7 +68,7 @@ func TestVerifC07WindowV2(t *testing.T) {
 								w.Ack(c)
 							}
 							pos += c
-							}
+						}
 						rep.Eval()
 						rep.Transitions(int64(len(sizes)))
 						rep.Trace()
